@@ -92,14 +92,44 @@ def check(d: str, tier: str, props: list[str], seed: str = "0") -> dict:
     return out
 
 
+def adopt(src: str, sid: str, prop: str, skip_suite: bool) -> int:
+    """Confirm a candidate myself (demo fails with / passes without, suite passes), then keep it under /verif/seeded/."""
+    ok_demo = confirm(src)
+    ok_suite = True if skip_suite else suite(src)
+    if not (ok_demo and ok_suite):
+        print(f"[adopt] {src}: NOT adopted (demo confirmed={ok_demo}, suite ok={ok_suite})")
+        return 1
+    dst = os.path.join(VERIF, "seeded", sid)
+    os.makedirs(dst, exist_ok=True)
+    for f in ("patch.diff", "demo.py", "notes.md"):
+        if os.path.exists(os.path.join(src, f)):
+            shutil.copy(os.path.join(src, f), os.path.join(dst, f))
+    notes = open(os.path.join(src, "notes.md")).read() if os.path.exists(os.path.join(src, "notes.md")) else ""
+    meta = {"id": sid, "property": prop, "origin": "independent sub-agent given only the property text and a scratch worktree",
+            "needs_to_manifest": "see notes.md", "confirmed_by_me": {
+                "demo": "exit 0 on a scratch copy of /repo HEAD, exit != 0 with patch.diff applied (tools/seeded.py confirm)",
+                "suite": "skipped" if skip_suite else "package test suite on a scratch copy with the patch: no test fails that "
+                         "passes on the unchanged tree (tools/run_suite.sh)"},
+            "files_touched": [ln[6:].strip() for ln in open(os.path.join(src, "patch.diff")) if ln.startswith("+++ b/")],
+            "summary": notes.strip().splitlines()[0].lstrip("# ").strip() if notes.strip() else ""}
+    json.dump(meta, open(os.path.join(dst, "meta.json"), "w"), indent=1)
+    print(f"[adopt] {sid}: adopted into {dst}")
+    return 0
+
+
 def main() -> int:
     ap = argparse.ArgumentParser()
-    ap.add_argument("cmd", choices=["confirm", "suite", "check", "all"])
+    ap.add_argument("cmd", choices=["confirm", "suite", "check", "all", "adopt"])
+    ap.add_argument("--id")
+    ap.add_argument("--property")
+    ap.add_argument("--skip-suite", action="store_true")
     ap.add_argument("dir", nargs="?")
     ap.add_argument("--tier", default="quick")
     ap.add_argument("--props")
     ap.add_argument("--seed", default="0")
     a = ap.parse_args()
+    if a.cmd == "adopt":
+        return adopt(a.dir, a.id, a.property, a.skip_suite)
     if a.cmd == "confirm":
         return 0 if confirm(a.dir) else 1
     if a.cmd == "suite":
